@@ -363,30 +363,62 @@ def canon(t, pol):
     return canon_test(t, pol)
 
 
+def _always_leaves(body):
+    """The statement list always ends by leaving the enclosing block (continue/break/return/raise/sys.exit)."""
+    if not body:
+        return False
+    last = body[-1]
+    if isinstance(last, (ast.Continue, ast.Break, ast.Return, ast.Raise)):
+        return True
+    if isinstance(last, ast.Expr) and isinstance(last.value, ast.Call) and norm(last.value.func) in ("sys.exit", "exit", "quit", "os._exit"):
+        return True
+    if isinstance(last, ast.If):
+        return _always_leaves(last.body) and _always_leaves(last.orelse)
+    return False
+
+
 def guards_of(root, stmt):
-    """[(test, polarity)] of the If statements enclosing stmt below root, outermost first, plus the
-    negations contributed by earlier `if ...: continue/return/raise` siblings are NOT included (enclosing only)."""
+    """[(test, polarity)] that hold whenever control reaches `stmt` below `root`: the tests of the enclosing If
+    statements (outermost first) and the negations contributed by earlier sibling statements of the form
+    `if c: ...; continue/return/raise` (then c is False afterwards; symmetrically for an else branch that leaves)."""
     out = []
 
     def rec(body):
-        for st in body:
+        for i, st in enumerate(body):
+            found = False
+            local = []
             if st is stmt:
-                return True
-            if isinstance(st, ast.If):
+                found = True
+            elif isinstance(st, ast.If):
                 if rec(st.body):
-                    out.append((st.test, True))
-                    return True
-                if rec(st.orelse):
-                    out.append((st.test, False))
-                    return True
+                    local.append((st.test, True))
+                    found = True
+                elif rec(st.orelse):
+                    local.append((st.test, False))
+                    found = True
             else:
                 for fld in ("body", "orelse", "finalbody"):
                     sub = getattr(st, fld, None)
                     if isinstance(sub, list) and sub and isinstance(sub[0], ast.stmt) and rec(sub):
-                        return True
-                for h in getattr(st, "handlers", []) or []:
-                    if rec(h.body):
-                        return True
+                        found = True
+                        break
+                if not found:
+                    for h in getattr(st, "handlers", []) or []:
+                        if rec(h.body):
+                            found = True
+                            break
+            if found:
+                # negations from earlier siblings in this block
+                sib = []
+                for prev in body[:i]:
+                    if isinstance(prev, ast.If):
+                        if _always_leaves(prev.body) and not _always_leaves(prev.orelse):
+                            sib.append((prev.test, False))
+                        elif prev.orelse and _always_leaves(prev.orelse) and not _always_leaves(prev.body):
+                            sib.append((prev.test, True))
+                out.extend(local)
+                out.extend(reversed(sib))
+                return True
         return False
 
     rec(root.body if hasattr(root, "body") else root)
